@@ -226,7 +226,7 @@ def scroll(op, cols, rows, row, top, bottom, props, sb=1, alt=2, limit="Some(1)"
          desc="execute(%s%s): rows of the range shift by min(n,height), vacated rows blank in the current pen, other lines unchanged, "
               "scrollback grows only for an upward scroll starting at row 0, cursor, marks, frame, InvT" % (op, "" if fixed_count else "(n)"),
          bounds=geo_desc(cols, rows, **kw) + ("; n = %d" % nfix if nfix is not None else ("" if fixed_count else "; n any u16")),
-         optional_covers=SCROLL_OPT if fixed_count else [])
+         optional_covers=(SCROLL_OPT if fixed_count else []) + (["alternate screen"] if alt == 0 else []) + (["primary screen"] if alt == 1 else []))
 
 
 # quick: one instance per op on 3-column screens with a region strictly inside the screen where possible
@@ -539,8 +539,8 @@ for (cols, rows, sb) in ((2, 2, 2), (3, 3, 2), (1, 2, 3), (2, 1, 4)):
          desc="Buffer::relative_position(logical_position(p)) == p for any soft-wrap marks over %d lines" % (rows + sb), bounds="%dx%d + %d scrollback lines" % (cols, rows, sb))
 
 # alternate screen showing while the parked primary still has lines pending for trimming (scrolled and switched in one call)
-gc(2, 2, 0, "Some(1)", 1, True, {"C14": Q, "C16": Q, "C13": T, "C12": T}, parked=(2, 2))
-gc(2, 2, 1, "Some(1)", 1, False, {"C14": T, "C16": T, "C13": T}, parked=(2, 3))
+gc(2, 2, 0, "Some(1)", 1, True, {"C14": Q, "C16": Q, "C13": T, "C12": T}, parked=(2, 2), mem=20)
+gc(2, 2, 1, "Some(1)", 1, False, {"C14": T, "C16": T, "C13": T}, parked=(2, 3), mem=20)
 
 
 # ----------------------------------------------------------------------------- T-plain (C09)
